@@ -388,6 +388,18 @@ def r4_writer(cx):
     cx.ob("R4", "R4/write_serializer", ok, ws[0], "write_serializer writes the data then, when present, the checksum")
 
 
+def r6_integrity_check_covers_content(cx):
+    """'only the raw bytes of stored content may differ without an error, and in that case the integrity check
+    fails': the container-wide check must reach the Blake3 check of every pack that is present (C04-R2/R3)"""
+    import c04
+    before = len(cx.obs)
+    c04.r3_container_check(cx)
+    c04.r2_check_impl(cx)
+    for o in cx.obs[before:]:
+        o.key = "R6/" + o.rule + "-" + o.key.split("/", 1)[1]
+        o.rule = "R6"
+
+
 def r5_witness(cx):
     """type-level: CheckReader cannot be named (hence constructed) outside the crate"""
     import witness
@@ -403,4 +415,5 @@ RULES = [
     ("R3", r3_the_check, 10),
     ("R4", r4_writer, 10),
     ("R5", r5_witness, 1),
+    ("R6", r6_integrity_check_covers_content, 30),
 ]
